@@ -80,7 +80,15 @@ class Key(PathElement):
 
   def __lt__(self, other: PathElement) -> bool:
     if type(self) is type(other):
-      return self.key < other.key
+      try:
+        return self.key < other.key
+      except TypeError:
+        # Keys of unorderable types (e.g. 1 and 'a' in the same dict): fall
+        # back to a deterministic order so that sorting paths never raises.
+        return (str(type(self.key)), repr(self.key)) < (
+            str(type(other.key)),
+            repr(other.key),
+        )
     else:
       return super().__lt__(other)
 
